@@ -724,6 +724,15 @@ Lemma eval_mul_int_Q a b r z q : eval a r = VInt z -> eval b r = VQ q -> eval (E
 Proof. intros Ha Hb. cbn [eval]. rewrite Ha, Hb. reflexivity. Qed.
 Lemma eval_index_dict a i r d k v : eval a r = VDict d -> eval i r = k -> is_bad k = false -> dict_get k d = Some v -> eval (EIndex a i) r = v.
 Proof. intros Ha <- Hk Hv. cbn [eval]. rewrite Ha. destruct (eval i r); try discriminate Hk; cbn [bad2]; now rewrite Hv. Qed.
+Lemma eval_listlit_all r es : forall vs, Forall2 (fun e v => eval e r = v /\ is_bad v = false) es vs -> eval (EListLit es) r = VList vs.
+Proof.
+  induction es as [|e es IH]; intros vs H; inversion H as [|? v ? vs' [He Hv] Hr]; subst; [reflexivity|].
+  change (eval (EListLit (e :: es)) r) with
+    (let x := eval e r in match eval (EListLit es) r with
+       | VList t => if is_bad x then x else VList (x :: t)
+       | other => if is_bad x then (match bad2 x other with Some e0 => e0 | None => other end) else other end).
+  cbv zeta. rewrite (IH vs' Hr), Hv. reflexivity.
+Qed.
 Lemma eval_call0 f r : eval (ECall f []) r = prim f []. Proof. reflexivity. Qed.
 Lemma eval_call1 f a r v : eval a r = v -> is_bad v = false -> eval (ECall f [a]) r = prim f [v].
 Proof. intros <- H. cbn [eval]. destruct (eval a r); try discriminate H; reflexivity. Qed.
@@ -943,6 +952,7 @@ Arguments exec_seq {prim wfuel}.
 Arguments exec_if {prim wfuel}.
 Arguments eval_var {prim}.
 Arguments eval_call0 {prim}.
+Arguments eval_listlit_all {prim}.
 Arguments eval_index_dict {prim}.
 Arguments eval_mul_int_Q {prim}.
 Arguments eval_add_Q_int_l {prim}.
